@@ -232,6 +232,13 @@ func (c *Channel) JoinPresence(ctx context.Context, p stanza.Presence, opt ...Op
 		c.addr = newAddr
 	}
 
+	// The channel stops being managed when the occupant's unavailable presence
+	// is processed, so make sure that it is (again) before we ask to join or the
+	// room's answer would be ignored.
+	c.client.managedM.Lock()
+	c.client.managed[p.To.String()] = c
+	c.client.managedM.Unlock()
+
 	ctx, cancel := context.WithCancel(ctx)
 	defer cancel()
 
